@@ -41,6 +41,7 @@ THEOREMS = [
     "CrCube.C19.datetime_by_position_or_value",
     "CrCube.C19.unfixed_null_raises",
     "CrCube.C19.unfixed_agrees_off_null",
+    "CrCube.C19.unfixed_datetime_missing_ref_counterexample",
 ]
 RULE = ("shim seam, EXHAUSTIVE over the finite universe U: family A = every array dimension shape with 1-4 items "
         "x kind (MR, MR with view insertions, CA, numeric array) x element-id pattern (positions, 1..n, reversed, "
@@ -340,6 +341,9 @@ def generate(ctx):
     cases += dt_cases(ctx.rng, ctx.n(120, 3000))
     for _ in range(ctx.n(110, 2500)):
         cases.append(api_case(ctx.rng))
+    from props import c19_api
+    for _ in range(ctx.n(40, 600)):
+        cases.append(c19_api.keys_case(ctx.rng))
     return cases
 
 
@@ -377,6 +381,8 @@ def lean_ops(case):
     if case["t"] == "dt":
         return [{"op": "translate_dt", "dim": case["dim"], "refs": case["refs"]},
                 {"op": "shim_dt", "dim": case["dim"], "xf": case["xf"]}]
+    if case["t"] == "keys":
+        return []
     if case["t"] == "api":
         from props import c19_api
         return c19_api.lean_ops(case)
@@ -390,14 +396,30 @@ def F(kind, locus, detail):
 def evaluate(case, louts, ctx):
     t = case["t"]
     ctx.count("cases:" + t)
-    if t == "pyint":
-        return eval_pyint(case, louts, ctx)
-    if t == "shim":
-        return eval_shim(case, louts, ctx)
-    if t == "dt":
-        return eval_dt(case, louts, ctx)
-    from props import c19_api
-    return c19_api.evaluate(case, louts, ctx)
+    try:
+        if t == "pyint":
+            return eval_pyint(case, louts, ctx)
+        if t == "shim":
+            return eval_shim(case, louts, ctx)
+        if t == "dt":
+            return eval_dt(case, louts, ctx)
+        from props import c19_api
+        if t == "keys":
+            return c19_api.eval_keys(case, ctx)
+        return c19_api.evaluate(case, louts, ctx)
+    except common.HarnessFault:
+        raise
+    except Exception as e:  # noqa
+        # an exception escaping from LIBRARY code at a place where the harness expects none is a finding about
+        # the library (e.g. a broken cache), not a harness fault
+        import traceback
+        tb = traceback.extract_tb(e.__traceback__)
+        lib = [fr for fr in tb if "/cr/cube/" in fr.filename]
+        if not lib:
+            raise
+        return [{"kind": "spec", "locus": "%s.library-raises" % case["t"],
+                 "detail": "%s: %s at %s:%d (%s)" % (type(e).__name__, e, lib[-1].filename.split("/cr/cube/")[-1],
+                                                    lib[-1].lineno, lib[-1].name)}], None
 
 
 def eval_pyint(case, louts, ctx):
